@@ -508,7 +508,7 @@ pub fn check() -> PropertyCheck {
             Box::new(Pbt {
                 name: "history",
                 quick: 10_000,
-                thorough: 200_000,
+                thorough: 1_000_000,
                 strat: hist_strat,
                 test: hist_test,
                 max_shrink: 2000,
@@ -516,7 +516,7 @@ pub fn check() -> PropertyCheck {
             Box::new(Pbt {
                 name: "tcp-storm",
                 quick: 30_000,
-                thorough: 500_000,
+                thorough: 1_500_000,
                 strat: storm_strat,
                 test: storm_test,
                 max_shrink: 2000,
